@@ -80,8 +80,34 @@ func (rt *runtime) newRegExpObject(pattern string, flags string) *object {
 	o.defineProperty("ignoreCase", boolValue(ignoreCase), 0, false)
 	o.defineProperty("multiline", boolValue(multiline), 0, false)
 	o.defineProperty("lastIndex", intValue(0), 0o100, false)
-	o.defineProperty("source", stringValue(pattern), 0, false)
+	o.defineProperty("source", stringValue(regExpSource(pattern)), 0, false)
 	return o
+}
+
+// regExpSource returns the pattern in the form of the body of a regular expression
+// literal: the empty pattern is (?:) and a / outside a class is escaped.
+func regExpSource(pattern string) string {
+	if pattern == "" {
+		return "(?:)"
+	}
+	source := make([]rune, 0, len(pattern))
+	escaped, inClass := false, false
+	for _, chr := range pattern {
+		switch {
+		case escaped:
+			escaped = false
+		case chr == '\\':
+			escaped = true
+		case chr == '[':
+			inClass = true
+		case chr == ']':
+			inClass = false
+		case chr == '/' && !inClass:
+			source = append(source, '\\')
+		}
+		source = append(source, chr)
+	}
+	return string(source)
 }
 
 func (o *object) regExpValue() regExpObject {
